@@ -210,6 +210,11 @@ def model_apply(m, op, st):
             st.count("probe.rename_mentioned")
         m.rename(op["id"], op["new"])
         return "ok"
+    if k == "readd_obj":
+        if m.add_text(op["text"]) != "ok":
+            m.unspecified = "removed line cannot be added again"
+            return "any"
+        return "ok"
     if k == "reshape_edge":
         rec = m.by_name(op["id"])
         if rec is None or rec.rt != "E":
@@ -263,8 +268,6 @@ def run(scn, st):
     m = None
     version = scn["cfg"]["version"]
     nsteps = 0
-    rm_handles = []
-    n_removed = 0
     for n, op in enumerate(scn["ops"]):
         if op["op"] == "new":
             w.apply(op)
@@ -282,18 +285,12 @@ def run(scn, st):
                     if len(getattr(t, c)) >= 2:
                         st.count("probe.fanout2_removal")
                         break
-        if op["op"] == "rm":
-            n_removed = len(w.removed)
         if op["op"] == "readd_obj":
-            ent = rm_handles[op["rmidx"]] if op["rmidx"] < len(rm_handles) else None
-            # (in a shrunk history the index may point at another removal: the text recorded when the object was
-            # removed says whether it is the line the operation means)
-            if ent is None or gtext.canon_lines(ent[1], version) != gtext.canon_lines(op["text"], version) \
-                    or m.copy().add_text(op["text"]) != "ok":
+            if m.copy().add_text(op["text"]) != "ok":
                 continue
-            obj = ent[0]
-            rm_handles[op["rmidx"]] = None      # (the object lives on in the Gfa: it is no removed line any more)
-            out = core.call(w.gfa.add_line, obj)
+            out = w.apply(op)
+            if out.ok and out.value == "skipped":
+                continue
             m.add_text(op["text"])
             st.count("probe.removed_instance_added_again")
             if not out.ok:
@@ -343,8 +340,6 @@ def run(scn, st):
             return
         out = w.apply(op)
         st.count("outcome." + out.kind)
-        if op["op"] == "rm":
-            rm_handles.append((w.removed[-1], ob.line_text(w.removed[-1])) if (out.ok and len(w.removed) > n_removed) else None)
         if m.unspecified:
             st.count("probe.model_unspecified")
             return
